@@ -6,6 +6,7 @@ PROPS["C04"] = {
         {"pkg": "table", "hdir": "table", "specs": [
             spec("C04/content/1rw", "VerifC04Content", {"nrw": "x", "ws": "1"}),
             spec("C04/isolation", "VerifC04Isolation"),
+            spec("C04/isolation/aggregation", "VerifC04IsolationAgg"),
             spec("C04/content/ws", "VerifC04Content", {"nrw": "", "ws": "2"}, tier="thorough"),
             spec("C04/content/2rw", "VerifC04Content", {"nrw": "xx", "ws": "1"}, tier="thorough")]},
     ],
